@@ -227,6 +227,12 @@ func genP06(g *Gen, p *Program) {
 					op.I = nil
 					if g.R.P(1, 2) {
 						op.I = []int64{0, 0, int64(g.R.Range(1, 3)), int64(g.R.N(12))}
+						if g.R.P(1, 3) {
+							// one whole Write call refused, the others accepted:
+							// what the State did accept must not read as
+							// another value
+							op.I[2], op.I[3] = 4, int64(g.R.Range(1, 3))
+						}
 					}
 				case "Sprintf":
 					op.S = []string{"v"}
